@@ -664,7 +664,14 @@ func runC38(c *Ctx) {
 		})
 		c.CheckAt("C38.R2", "(*centrifuge.Client).writePublicationUpdatePosition: the sentinel is never written to a non-positioned subscriber", w.Pos(wp.Pos()), okDrop, "the sentinel is not a publication")
 	}
-	// R3
+	// R3: the insufficient-state marker is never dropped: every path through
+	// broadcastInsufficientState (callees inlined) hands it to the queue or broadcasts it.
+	if bis := c.Fn("C38.R3", "centrifuge", "(*channelMedium).broadcastInsufficientState"); bis != nil {
+		deliver := w.wrapMust(orPred(w.calleeIs("channelMedium.broadcast"), w.calleeIs("publicationQueue.Add")), 3)
+		bad := PathQ{Stop: deliver, Goal: isReturn}.FromEntry(bis)
+		c.CheckAt("C38.R3", "(*centrifuge.channelMedium).broadcastInsufficientState: the marker is enqueued or broadcast on every path", w.Pos(bis.Pos()), bad == nil,
+			"publications may be dropped when the queue is over its byte limit, the insufficient-state marker may not: a detected position loss that is dropped leaves the positioned subscribers on a stale position (and the check time was refreshed, so it is not re-detected soon)"+instrAt(w, bad))
+	}
 	cp := c.Fn("C38.R3", "centrifuge", "(*channelMedium).CheckPosition")
 	if cp != nil {
 		calls := CallsIn(cp, true, w.calleeIs("channelMedium.broadcastInsufficientState"))
